@@ -6,6 +6,7 @@ import fractions
 import itertools
 import math
 import random
+import re
 import types
 
 from bv.common import Property, Failure, time_limit, exc_name
@@ -852,17 +853,32 @@ class C20(Property):
 
         def nats(l):
             return ','.join(str(x) for x in l) or '-'
+
+        def canon(l):
+            """most_common results: count descending, ties in key order (the statement fixes the count order only)"""
+            def ck(p):
+                k = kn(p[0])
+                return (-p[1], (0, int(k), '') if k.isdigit() else (1, 0, k))
+            try:
+                return sorted(l, key=ck)
+            except Exception:
+                return list(l)
+
+        def top(l):
+            """most_common(n): the keys with the smallest returned count are not named (free choice among ties)"""
+            l = canon(l)
+            return ','.join('%s:%s' % (kn(k) if c != l[-1][1] else '*', c) for k, c in l) or '-'
         recs = []
         for o in obs:
             if 'exc' in o:
                 recs.append('X' + o['exc'])
             elif 'q' in o:
-                recs.append('Q' + pairs(o['q']) + ('!reread' if 'q2' in o else ''))
+                recs.append('Q' + top(o['q']) + ('!reread' if 'q2' in o else ''))
             else:
                 recs.append(' | '.join(' '.join([
                     'T%d' % d['total'], 'I' + pairs(d['items']), 'K' + nats(kn(k) for k in d['keys']),
                     'V' + nats(d['values']), 'L%d' % d['len'], 'C%d' % d['common'], 'U%d' % d['uncommon'],
-                    'M' + pairs(d['mc']), 'G' + nats(d['gets']), 'H' + nats(d['has']),
+                    'M' + pairs(canon(d['mc'])), 'G' + nats(d['gets']), 'H' + nats(d['has']),
                     'E' + nats(kn(k) for k in d['elements']), self.render_commonality(d)] +
                     (['!reread:' + ','.join(sorted(d['reread']))] if d.get('reread') else [])) for d in o['d']))
         return ';'.join(recs)
@@ -908,6 +924,7 @@ class C20(Property):
         return add
 
     def oracle(self, case, obs):
+        self._last = (case, obs)
         w = self.w_of(case)
         ex = self.th_exact(case)
         ni = case.get('ni', 1)
@@ -1036,7 +1053,40 @@ class C20(Property):
     # known finding: the Lossy Counting algorithm itself exceeds 2/threshold (Lean: C20.size_bound_false);
     # an excess is that finding only when the implementation still behaves like the verified model
     def finding_size_bound(self, case, failure):
-        return failure.tag == 'size_bound' and getattr(failure, 'model_agrees', None) is not False
+        if failure.tag != 'size_bound':
+            return False
+        if getattr(failure, 'model_agrees', None) is not False:
+            return True
+        # model and implementation differ somewhere on this case. The finding is about WHICH KEYS ARE TRACKED: it is
+        # still the known finding when, after every mutator, total and the tracked keys with their counts (as a
+        # set) are exactly the verified model's - whatever else differs (order of ties in most_common, dict
+        # order, get_commonality ...) is either free or reported by its own clause (size_bound is judged last)
+        try:
+            last = getattr(self, '_last', None)
+            if last is None or last[0] is not case:
+                return False
+            from bv.common import Driver
+            drv = Driver(self.PID)
+            ln = self.line(case)
+            if ln is None or not drv.available():
+                return False
+            return self.core_text(drv.query([ln])[0]) == self.core_text(self.render(case, last[1]))
+        except Exception:
+            return False
+
+    @staticmethod
+    def core_text(text):
+        """of a correspondence text: per dump `T<total>` and the `I` pairs as a sorted list"""
+        out = []
+        for rec in text.split(';'):
+            if rec[:1] in ('Q', 'X'):
+                continue
+            for d in rec.split(' | '):
+                toks = d.split(' ')
+                t = [x for x in toks if x[:1] == 'T']
+                i = [x for x in toks if x[:1] == 'I']
+                out.append((t, sorted(i[0][1:].split(',')) if i else None))
+        return out
 
     def shrink(self, case):
         ops = case['ops']
